@@ -8,7 +8,7 @@
    [bcast_idx s q] (the index at which an operand of shape s is read for result index q).
    [F V vzero f args q] = f applied to the operands' values at q = numpy's f(densified operands)[q]. *)
 From Coq Require Import ZArith List Bool Sorting.Sorted.
-From Verif Require Import Py Shape COO COOP NpElemwise Elemwise ElemwiseP ElemwiseBcastP ElemwiseGenP.
+From Verif Require Import Py Shape COO COOP NpElemwise S_umath Elemwise ElemwiseP ElemwiseBcastP ElemwiseGenP.
 Import ListNotations.
 Open Scope Z_scope.
 
@@ -86,3 +86,18 @@ Theorem programs_den (V : Type) (veqb : V -> V -> bool) (vzero : V) :
             forall q, in_range sh q -> operand_at V vzero a q = d q.
 Proof. exact (programs_proof V veqb vzero). Qed.
 Print Assumptions programs_den.
+
+(* (6) objects: SparseArray.astype (early-return condition regenerated from the source) returns the
+   operand ITSELF exactly when the dtype is unchanged and copy=False — NumPy's rule — and therefore a
+   fresh object whenever copy is true (also by default), so in-place updates of the result cannot reach
+   the operand in a multi-step program. *)
+Theorem astype_object_spec (self fresh : nat) (same_dtype copy : bool) :
+  astype_object self fresh same_dtype copy = if same_dtype && negb copy then self else fresh.
+Proof. exact (astype_object_spec_proof self fresh same_dtype copy). Qed.
+Print Assumptions astype_object_spec.
+
+Theorem astype_copy_fresh (self fresh : nat) (same_dtype : bool) :
+  fresh <> self -> astype_object self fresh same_dtype s_astype_copy_default <> self /\
+                   astype_object self fresh same_dtype true <> self.
+Proof. exact (astype_copy_fresh_proof self fresh same_dtype). Qed.
+Print Assumptions astype_copy_fresh.
